@@ -91,6 +91,9 @@ def build_tree(P, M, M2, core_all, init_kind, sub_init_kind, plain_kind):
     extra = (f"import {M2}\nimport json as js\nfrom .core import alpha, KAPPA as KAPPA2\nfrom . import core\nfrom .sub.deep import delta as delta2\n\n\n"
              f"def theta():\n    return '{P}.extra.theta'\n")
     files = {f"{P}/extra.py": extra, f"{P}/__init__.py": init, f"{P}/core.py": core, f"{P}/sub/__init__.py": sub_init, f"{P}/sub/deep.py": deep, f"{M}.py": plain, f"{M2}.py": other}
+    # decoys: top-level modules named like the package's own modules; a RELATIVE import must never be resolved to them
+    files["core.py"] = "def alpha():\n    return 'decoy.core.alpha'\n\n\ndef beta():\n    return 'decoy.core.beta'\n\n\nKAPPA = ('decoy', 'KAPPA')\n"
+    files["deep.py"] = "def delta():\n    return 'decoy.deep.delta'\n\n\nLAMBDA = 'decoy'\n"
     return files, {"init": init_kind, "sub_init": sub_init_kind, "plain": plain_kind, "core_all": bool(core_all)}
 
 
@@ -437,7 +440,7 @@ def evaluate(case, info=None):
     finally:
         os.chdir(cwd)
         sys.path[:] = saved_path
-        for name in [n for n in sys.modules if n.startswith(case["prefix"])]:
+        for name in [n for n in sys.modules if n.startswith(case["prefix"]) or n in ("core", "deep")]:
             sys.modules.pop(name, None)
         importlib.invalidate_caches()
         if case.get("_keep_root") is not None:
